@@ -138,6 +138,30 @@ func (s *Sim) mutateConf() *ConfSpec {
 			n = r.Range(0, 1)
 		}
 	}
+	// directed: a queue below this parent is draining already, now the parent leaves the configuration as well
+	if s.post != nil && r.Bool(0.25) {
+		for _, path := range sortedKeys(s.post.Queues) {
+			cq := s.post.Queues[path]
+			if cq.Status != "Draining" || cq.Parent == "" || cq.Parent == "root" {
+				continue
+			}
+			pq := c.Find(cq.Parent)
+			gp := c.parentOf(cq.Parent)
+			if pq == nil || gp == nil || len(gp.Children) <= 1 {
+				continue
+			}
+			var keep []*QSpec
+			for _, ch := range gp.Children {
+				if ch != pq {
+					keep = append(keep, ch)
+				}
+			}
+			gp.Children = keep
+			s.probe("directed_remove_parent_of_draining")
+			n = 0
+			break
+		}
+	}
 	// directed: a parent with live applications below it is redefined as a leaf
 	if s.post != nil && r.Bool(0.12) {
 		var busy []string
